@@ -133,6 +133,15 @@ Check q32_div_nearest : forall a b, in_i64 a -> in_i64 b -> b <> 0%Z ->
   (I64_MIN < dfix_div a b < I64_MAX)%Z -> (2 * Z.abs (dfix_div a b * b - a * 2 ^ 32) <= Z.abs b)%Z.
 Print Assumptions q32_div_nearest.
 
+(* Q32.32 -> f32 (fixed_q32_32::to_f32, DFix64::to_f32): for every i64 the result is a canonical finite
+   float - never -0, a subnormal, an infinity or a NaN (case analysis on the leading-bit position). *)
+Theorem q32_to_f32_canonical : forall raw, in_i64 raw ->
+  canonical (fx_to_f32 raw) /\ is_finite (fx_to_f32 raw) = true.
+Proof. exact fx_to_f32_canonical_l. Qed.
+Check q32_to_f32_canonical : forall raw, in_i64 raw ->
+  canonical (fx_to_f32 raw) /\ is_finite (fx_to_f32 raw) = true.
+Print Assumptions q32_to_f32_canonical.
+
 (* PRNG: next_int stays within the requested inclusive range on both code paths; the state is never
    all-zero after seeding and a step never reaches the all-zero sink. *)
 Theorem prng_next_int_range : forall fuel st lo hi v st',
